@@ -5,7 +5,7 @@ import "encoding/binary"
 // C02: the secure channel delivers only authentic peer plaintexts, at most once
 // (relative to the AEAD contract of the recording cipher stub).
 
-//verif: unwind=130 cover=delivered,dropped bounds="Session.Deliver, data branch: arbitrary role/handshake index/send counter, any packet with counter >= 4 and 0..3 body bytes, AEAD outcome arbitrary (fail or any plaintext of 0..2 bytes)"
+// verif: unwind=130 cover=delivered,dropped bounds="Session.Deliver, data branch: arbitrary role/handshake index/send counter, any packet with counter >= 4 and 0..3 body bytes, AEAD outcome arbitrary (fail or any plaintext of 0..2 bytes)"
 func VH_C02_deliverOnlyAuthentic() bool {
 	var log []vCipherCall
 	s := vDataSession(&log, 2)
@@ -35,7 +35,7 @@ func VH_C02_deliverOnlyAuthentic() bool {
 	return true
 }
 
-//verif: unwind=12 cover=replayed bounds="ready session, empty replay window, packets with counters c,d,c where c,d in [16,16+255], all authenticating: the third is never delivered"
+// verif: unwind=12 cover=replayed bounds="ready session, empty replay window, packets with counters c,d,c where c,d in [16,16+255], all authenticating: the third is never delivered"
 func VH_C02_atMostOnce() bool {
 	var log []vCipherCall
 	s := vDataSession(&log, 1)
@@ -51,7 +51,7 @@ func VH_C02_atMostOnce() bool {
 	return !(a1 && a3)
 }
 
-//verif: unwind=130 cover=far-jump bounds="ready session, packets with counters c, d, c where d jumps the window by any amount >= 128 blocks (symbolic 32-bit d): the replay of c is never delivered"
+// verif: unwind=130 cover=far-jump bounds="ready session, packets with counters c, d, c where d jumps the window by any amount >= 128 blocks (symbolic 32-bit d): the replay of c is never delivered"
 func VH_C02_atMostOnceFarJump() bool {
 	var log []vCipherCall
 	s := vDataSession(&log, 1)
@@ -68,7 +68,7 @@ func VH_C02_atMostOnceFarJump() bool {
 	return !(a1 && a3)
 }
 
-//verif: cover=sent,refused bounds="Session.Send from an arbitrary state, plaintext 0..3 bytes: output = BE32(counter) || AEAD(counter, header, plaintext); counter strictly increases; refuses before the handshake completed and at MaxNonce"
+// verif: cover=sent,refused bounds="Session.Send from an arbitrary state, plaintext 0..3 bytes: output = BE32(counter) || AEAD(counter, header, plaintext); counter strictly increases; refuses before the handshake completed and at MaxNonce"
 func VH_C02_sendFraming() bool {
 	var log []vCipherCall
 	s := vDataSession(&log, 1)
@@ -95,7 +95,7 @@ func VH_C02_sendFraming() bool {
 	return true
 }
 
-//verif: unwind=130 cover=became-sender bounds="inductive step: any session state in which (can send => send counter >= 16), any data packet: afterwards (can send => send counter >= 16), so data counters never collide with the handshake's use of counters 0..3 under the same keys"
+// verif: unwind=130 cover=became-sender bounds="inductive step: any session state in which (can send => send counter >= 16), any data packet: afterwards (can send => send counter >= 16), so data counters never collide with the handshake's use of counters 0..3 under the same keys"
 func VH_C02_sendCounterDisjointFromHandshake() bool {
 	var log []vCipherCall
 	s := vDataSession(&log, 1)
